@@ -3,7 +3,7 @@
 //!
 //! `jaqmon threads <request.json>` prints one JSON summary. Request:
 //! `{"threads":T,"reps":R,"seed":s,"jitter":0..3,"take":N,"lockstep":bool,
-//!   "compile_during":bool,"share_values":bool,"dump_expected":bool,
+//!   "compile_during":bool,"share_values":bool,"dump_expected":bool,"defs":"all"|"core","compile_limit":n,
 //!   "programs":[{"prog":text,"vars":[[name,wire]..],"inputs":[wire..]}..]}`
 //!
 //! Phases: (1) every program is compiled ONCE; (2) isolated baseline on the main thread,
@@ -191,8 +191,21 @@ impl Prog {
     }
 }
 
-fn compile_outcome(p: &Prog) -> (Option<Filter>, String) {
-    match catch_unwind(AssertUnwindSafe(|| crate::eval::compile(&p.text, &p.var_names))) {
+/// `core_defs`: compile against jaq-core's definitions only (no jaq-std / jaq-json
+/// definitions; all native filters stay available) — Miri interprets the compiler ~10^4
+/// times slower, and most of a compilation is the prelude.
+fn compile_outcome(p: &Prog, core_defs: bool) -> (Option<Filter>, String) {
+    let compile = || {
+        if core_defs {
+            jaq_all::compile_with(&p.text, jaq_core::defs(), crate::eval::all_funs(), &p.var_names).map_err(|errs| {
+                let (text, _, _) = crate::eval::render_reports(&errs);
+                json!({ "report": text })
+            })
+        } else {
+            crate::eval::compile(&p.text, &p.var_names)
+        }
+    };
+    match catch_unwind(AssertUnwindSafe(compile)) {
         Ok(Ok(f)) => (Some(f), "ok".to_string()),
         Ok(Err(rep)) => (None, format!("error: {}", rep["report"].as_str().unwrap_or("?"))),
         Err(_) => (None, format!("panic: {}", crate::take_panic())),
@@ -233,6 +246,9 @@ pub fn main(args: &[String]) {
     let take = req["take"].as_u64().unwrap_or(64) as usize;
     let lockstep = req["lockstep"].as_bool().unwrap_or(false);
     let compile_during = req["compile_during"].as_bool().unwrap_or(false);
+    // how many programs the compile-while-running thread compiles per repetition
+    let compile_limit = req["compile_limit"].as_u64().map_or(usize::MAX, |n| n as usize);
+    let core_defs = req["defs"].as_str() == Some("core");
     let share_values = req["share_values"].as_bool().unwrap_or(false) && cfg!(feature = "sync");
     let empty = Vec::new();
     let progs: Vec<Prog> = req["programs"]
@@ -256,7 +272,7 @@ pub fn main(args: &[String]) {
     let mut filters: Vec<Option<Filter>> = Vec::new();
     let mut compile_out: Vec<String> = Vec::new();
     for p in &progs {
-        let (f, o) = compile_outcome(p);
+        let (f, o) = compile_outcome(p, core_defs);
         filters.push(f);
         compile_out.push(o);
     }
@@ -398,9 +414,10 @@ pub fn main(args: &[String]) {
                 for rep in 0..reps.max(1) {
                     let mut order: Vec<usize> = (0..progs.len()).collect();
                     rng.shuffle(&mut order);
+                    order.truncate(compile_limit);
                     for pi in order {
                         let p = &progs[pi];
-                        let (f, o) = compile_outcome(p);
+                        let (f, o) = compile_outcome(p, core_defs);
                         n += 1;
                         if o != compile_out[pi] {
                             if mismatch_count.fetch_add(1, Relaxed) < 40 {
@@ -504,7 +521,7 @@ pub fn main(args: &[String]) {
     let out = json!({
         "expected": expected_dump,
         "threads": threads, "reps": reps, "programs": progs.len(), "pairs": pairs.len(),
-        "lockstep": lockstep, "jitter": level, "take": take,
+        "lockstep": lockstep, "jitter": level, "take": take, "defs": if core_defs { "core" } else { "all" },
         "compiled": filters.iter().filter(|f| f.is_some()).count(),
         "compile_errors": compile_errors,
         "isolated_runs": isolated_runs, "isolated_panics": isolated_panics,
